@@ -1,4 +1,5 @@
 import Tibc.Lemmas.EthChain
+import Tibc.Lemmas.EthPrune
 /-
   C18 — ETH client accepts only valid children of known headers, keeps one chain.
   PROPERTY THEOREMS ONLY.
@@ -301,5 +302,41 @@ example : (scenarioDistinct.map (fun c => (c.latest.hash, (c.cons 101).map (·.r
 /-- Non-vacuity of the acceptance rule: a valid child of `G` is accepted. -/
 def child : Hdr := { mk 101 "A1" "G" "rA1" 1010 with difficulty := calcDifficulty 1010 G, baseFee := calcBaseFee G }
 example : (checkHeaderAndUpdate c0 child 1005).isSome = true := by decide
+
+/-! ### pruning -/
+
+/-- **Pruning never exposes a foreign consensus state.** When an update of an Active client prunes
+    the earliest visible consensus state (older than the trusting period), the entries deleted
+    are those of the latest header's ancestor at that height, the latest header stays stored, and
+    every consensus state still exposed for an ancestor's height is that ancestor's. (Single
+    step: `one_chain` composes steps without pruning; this theorem covers the pruning part of a
+    step. The two are not yet composed over whole histories — after a prune the trusted header the
+    invariant of `one_chain` is anchored at may be gone.) -/
+theorem pruning_keeps_one_chain {c c' : Client} {b : Hdr} {now : Nat} (hi : Inv c b) (hrh : RootHeights c)
+    (hact : active c now = true) (hp : prune c now = some c') :
+    c'.latest = c.latest ∧ Stored c' c'.latest ∧
+    ∀ a, Anc c' c'.latest a → c'.cons a.number = some (consOf a) := by
+  obtain ⟨_, _, _, hm, hl, hlat, _⟩ := prune_keeps_main hi.keys hi.roots hrh hi.main hi.latest hact hp
+  exact ⟨hlat, hl, hm⟩
+
+/-- the hypotheses are met by a freshly created client … -/
+theorem created_rootHeights (g : Hdr) (period : Nat) : RootHeights (created g period) := by
+  intro r n key hk
+  simp only [created] at hk
+  split at hk
+  · rename_i heq
+    injection hk with hk
+    injection heq with _ h2
+    rw [← hk, h2]
+  · cases hk
+
+/-- … and pruning really happens in the model: with a trusting period of 10 s, submitting A2 at
+    time 1020 deletes the consensus state of the creation height (expired at 1011) -/
+def prunedOnce : Option Client := do
+  let c ← force c0 (mk 101 "A1" "G" "rA1" 1001)
+  prune { c with period := 10 } 1020
+
+example : (prunedOnce.map (fun (c : Client) => ((c.cons 100).isSome, (c.cons 101).isSome))) = some (false, true) := by
+  decide
 
 end Tibc.C18
